@@ -225,10 +225,11 @@ CLAIMS["C16"] = {
 CLAIMS["C18"] = {
     "text": "Machine-checked proof (Lean 4) over executable models of the parser (grammar.pest read as the PEG pest executes, plus the "
             "AST construction) and of the formatter (fmt.rs function by function, including the blank-line state machine). Proved, with "
-            "no premise on the schema: for EVERY source text the grammar model accepts, the formatted text of its AST reads back as the "
-            "canonical form of that AST (same definitions in the same order, names, ids, types, attributes, comments, docs; imports "
-            "sorted) and formatting that again changes nothing (formatting_a_parsed_schema = parsed_schemas_are_well_formed, one lemma "
-            "per grammar rule, + format_parses_back + formatting_again_changes_nothing). In detail: for "
+            "nothing assumed: for EVERY source text the grammar model accepts, the formatted text of its schema is accepted again (with "
+            "the parser model's own fuel) as the same schema in canonical form (same definitions in the same order, names, ids, types, "
+            "attributes, comments, docs; imports sorted) and formatting that again gives the same text (parse_format_parse = "
+            "parsed_schemas_are_well_formed, one lemma per grammar rule, + formatted_text_carries_its_fuel + format_parses_back + "
+            "formatting_again_changes_nothing). In detail: for "
             "EVERY well-formed schema AST (structs, enums, newtypes, consts of all kinds, services with functions in all body forms, "
             "events, inline structs / enums, fallbacks, attributes, comments and doc strings everywhere, file prelude, imports) the "
             "formatted text parses, without syntax error, to exactly the same schema with comment / doc lines in canonical form and "
@@ -242,9 +243,9 @@ CLAIMS["C18"] = {
             "every parsed AST (sval lines), plus implementation-only oracles for the statement itself: formatted text parses, to the "
             "same schema (imports sorted), idempotently, with the same diagnostics.",
     "note": "Trusted: Lean kernel (+propext, Classical.choice, Quot.sound), the harness, the reading of pest's semantics. Partial: the "
-            "model parser bounds nesting by a fuel; that the fuel parseSchema uses (input length + 2) is at least what the returned AST "
-            "needs is evaluated on every correspondence input (sval lines), not proved - the theorems take the fuel as given; non-ASCII "
-            "identifiers and the validator (equal errors and warnings: oracle only) are not modelled.",
+            "theorems are about the models; non-ASCII identifiers and the validator (equal errors and warnings: an implementation-only "
+            "oracle) are not modelled; the tie to pest and fmt.rs is differential (AST dumps, formatted text, and the sval lines, which "
+            "re-evaluate premises and conclusion of the theorems on every parsed input).",
     "design_ref": "DESIGN.md section 6 C18, section 10",
     "technique": "Lean 4 proofs (print/parse round trip) over executable PEG-parser and formatter models + differential correspondence against the real parser and formatter",
 }
